@@ -534,9 +534,12 @@ pub fn run(sub: &str, cases: &[Vec<String>]) -> bool {
             "c14enc" => do_enc(c),
             _ => do_tok(c),
         }));
+        // c14rt runs generated functions: whatever a child process may write to the harness's own stdout must not be
+        // taken for a result line, so these are marked and start on a fresh line.
+        let mark = if sub == "c14rt" { "\n@@ " } else { "" };
         match r {
-            Ok(l) => println!("{l}"),
-            Err(e) => println!("PANIC {}", hex(panic_msg(&e).as_bytes())),
+            Ok(l) => println!("{mark}{l}"),
+            Err(e) => println!("{mark}PANIC {}", hex(panic_msg(&e).as_bytes())),
         }
     }
     true
